@@ -852,8 +852,8 @@ func main() {
 	enames := []string{"appendStruct", "appendAny", "tType.EncodedSize", "tType.encodedMapSize", "tType.encodedListSize", "appendListHeader", "appendMapHeader", "Append", "EncodedSize"}
 	efds := []*ast.FuncDecl{findFunc(rf, "appendStruct"), findFunc(rf, "appendAny"), findMethod(rf, "tType", "EncodedSize"), findMethod(rf, "tType", "encodedMapSize"), findMethod(rf, "tType", "encodedListSize"), findFunc(rf, "appendListHeader"), findFunc(rf, "appendMapHeader"), findFunc(rf, "Append"), findFunc(rf, "EncodedSize")}
 	w("  encoderSkeleton := \"%s\"\n", skeletonHash("encoder", efds, enames, &skDump))
-	rnames := []string{"DoResolveFields", "lookupStructTag", "trimSpaces", "doParseType", "doParseSlice", "doMatchStruct", "readToken", "newStructDesc", "tField.fromDefsField"}
-	rfds := []*ast.FuncDecl{findFunc(df, "DoResolveFields"), findFunc(df, "lookupStructTag"), findFunc(df, "trimSpaces"), findFunc(df, "doParseType"), findFunc(df, "doParseSlice"), findFunc(df, "doMatchStruct"), findFunc(df, "readToken"), findFunc(rf, "newStructDesc"), findMethod(rf, "tField", "fromDefsField")}
+	rnames := []string{"DoResolveFields", "lookupStructTag", "trimSpaces", "doParseType", "doParseSlice", "doMatchStruct", "readToken", "newStructDesc", "tField.fromDefsField", "isident0", "isident", "isKeyword", "isTypeKeyword"}
+	rfds := []*ast.FuncDecl{findFunc(df, "DoResolveFields"), findFunc(df, "lookupStructTag"), findFunc(df, "trimSpaces"), findFunc(df, "doParseType"), findFunc(df, "doParseSlice"), findFunc(df, "doMatchStruct"), findFunc(df, "readToken"), findFunc(rf, "newStructDesc"), findMethod(rf, "tField", "fromDefsField"), findFunc(df, "isident0"), findFunc(df, "isident"), findFunc(df, "isKeyword"), findFunc(df, "isTypeKeyword")}
 	w("  resolverSkeleton := \"%s\"\n", skeletonHash("resolver", rfds, rnames, &skDump))
 	// the descriptor tables every codec theorem takes for granted (field index by id, required ids,
 	// offsets, per-field flags and fixed sizes, the type node's tag / size / alignment / element nodes):
